@@ -1,28 +1,46 @@
 /-
-  fmap.Read / ReadArea written against Go's slicing semantics (GoM): every `data[start:]`,
-  `make` and index of the Go function appears as a faulting primitive, so "never panics" is a
-  real statement about where the guards are.  `readG_refines` shows it computes the same
-  function as the functional model `read` (which the C13 correspondence validates).
+  pkg/fmap written against Go's slicing / allocation semantics (GoM): every `data[start:]`,
+  `make`, index and `io.ReadAll` of `Read`, `ReadArea`, `WriteArea`, `Write` appears as a faulting
+  primitive, so "never panics, never spins, never allocates beyond the budget" is a statement
+  about where the guards are.
+
+  The model follows the code **as repaired** by fixes/C20-fmap-read-quadratic.diff and
+  fixes/C20-fmap-readarea-alloc.diff:
+   * `Read` returns `errMultipleFound` as soon as the second header-valid signature is seen,
+     *before* `make([]Area, NAreas)` (the unrepaired code allocated and parsed the area table of
+     every candidate: quadratic time and cumulative allocation);
+   * `ReadArea` reads through a bounded section (`io.ReadAll(io.NewSectionReader …)`) instead of
+     `make([]byte, Areas[i].Size)`.
+  The functional model `Fmap.read` (Model.lean, used by C13) keeps the old control flow; both
+  agree on ok-vs-error, which is all that C13 compares (`readOldG_alloc_witness` below shows where
+  they differ: the meter).
 -/
-import FianoModel.Base.GoM
+import FianoModel.Total.Hoare
 import FianoModel.Fmap.ReadLemmas
 
 namespace Fiano.Fmap
 open GoM
 
+/-- `unsafe.Sizeof(Area{})`: 4 + 4 + 32 + 2, padded to the 4-byte alignment -/
+def areaMem : Nat := 44
+
+/-- the one allocation `Read` may make: `make([]Area, NAreas)` with `NAreas : uint16` -/
+def readK : Nat := 65535 * areaMem
+
 /-- loop body at a signature position `p`:  r := bytes.NewReader(data[p:]); two readField calls -/
-def visitG (data : Bytes) (acc : Acc) (p : Nat) : GoM Acc := do
+def visitG (B : Nat) (data : Bytes) (acc : Acc) (p : Nat) : GoM Acc := do
   let tail ← sliceFromG "Read: data[start:] (reader)" data p
   let (hb, rest) ← binaryReadG tail headerSize
   let h := decodeHeader hb
   if !headerValid h then pure acc
+  else if acc.valid + 1 ≥ 2 then err                  -- repaired: errMultipleFound, before the make
   else do
-    allocG h.nAreas areaSize                           -- make([]Area, fmap.NAreas)
+    allocB "Read: make([]Area, fmap.NAreas)" B h.nAreas areaMem
     let (ab, _) ← binaryReadG rest (areaSize * h.nAreas)
     pure { valid := acc.valid + 1, last := some ({ hdr := h, areas := decodeAreas h.nAreas ab }, p) }
 
 /-- the `for` loop of Read with Go's own control flow -/
-def readLoopG (data : Bytes) : Nat → Nat → Acc → GoM Acc
+def readLoopG (B : Nat) (data : Bytes) : Nat → Nat → Acc → GoM Acc
   | 0, _, _ => outOfFuel
   | fuel+1, start, acc =>
     if start ≥ data.length then pure acc
@@ -32,98 +50,237 @@ def readLoopG (data : Bytes) : Nat → Nat → Acc → GoM Acc
       match indexFrom data (data.length + 1) (data.length - tail.length) with
       | none => pure acc
       | some p => do
-        let acc' ← visitG data acc p
-        readLoopG data fuel (p + 8) acc'
+        let acc' ← visitG B data acc p
+        readLoopG B data fuel (p + 8) acc'
 
-def readG (data : Bytes) : GoM (FMap × Nat) := do
-  let acc ← readLoopG data (data.length + 1) 0 { valid := 0, last := none }
+def readG (B : Nat) (data : Bytes) : GoM (FMap × Nat) := do
+  let acc ← readLoopG B data (data.length + 1) 0 { valid := 0, last := none }
   match finish acc with
   | .ok r => pure r
   | .error _ => err
 
-/-- `ReadArea`: the allocation is `Areas[i].Size` bytes, taken from the map, before any read. -/
-def readAreaG (f : FMap) (img : Bytes) (i : Int) : GoM (Bytes × Bool) := do
+/-- `ReadArea` (repaired): `io.ReadAll` over the section `[Offset, Offset+Size)` of the reader —
+    the buffer grows with the bytes that are really there. -/
+def readAreaG (B : Nat) (f : FMap) (img : Bytes) (i : Int) : GoM Bytes := do
   if i < 0 || (f.hdr.nAreas : Int) ≤ i then err
   else
     match f.areas[i.toNat]? with
     | none => goPanic "ReadArea: f.Areas[i]"
     | some a => do
-      allocG a.size 1
       let got := slice img a.offset a.size
-      pure (got ++ List.replicate (a.size - got.length) 0,
-            decide (img.length ≤ a.offset) || decide (got.length < a.size))
+      allocB "ReadArea: io.ReadAll(section)" B got.length 1
+      if got.length < a.size then err else pure got
 
-/-! ### safety -/
+/-- the unrepaired `ReadArea`: `make([]byte, f.Areas[i].Size)` before the read -/
+def readAreaOldG (B : Nat) (f : FMap) (img : Bytes) (i : Int) : GoM Bytes := do
+  if i < 0 || (f.hdr.nAreas : Int) ≤ i then err
+  else
+    match f.areas[i.toNat]? with
+    | none => goPanic "ReadArea: f.Areas[i]"
+    | some a => do
+      allocB "ReadArea: make([]byte, f.Areas[i].Size)" B a.size 1
+      let got := slice img a.offset a.size
+      pure (got ++ List.replicate (a.size - got.length) 0)
 
-theorem visitG_safe (data : Bytes) (acc : Acc) (p : Nat) (m : Meter) (hp : p ≤ data.length) :
-    Safe (visitG data acc p m) := by
+/-- `WriteArea` onto a fixed-size image (an `io.WriterAt` that cannot grow) -/
+def writeAreaG (f : FMap) (img : Bytes) (i : Int) (data : Bytes) : GoM Bytes := do
+  if i < 0 || (f.hdr.nAreas : Int) ≤ i then err
+  else
+    match f.areas[i.toNat]? with
+    | none => goPanic "WriteArea: f.Areas[i]"
+    | some a =>
+      if data.length % 256 ^ 4 > a.size then err
+      else if a.offset + data.length > img.length then err
+      else pure (splice img a.offset data)
+
+/-- `Write`: Seek, then two `binary.Write` (each encodes into a fresh buffer first) -/
+def writeG (B : Nat) (img : Bytes) (f : FMap) (start : Nat) : GoM Bytes := do
+  allocB "Write: binary.Write(Header)" B headerSize 1
+  allocB "Write: binary.Write(Areas)" B f.areas.length areaSize
+  let e := encode f
+  if start + e.length > img.length then err else pure (splice img start e)
+
+/-! ### Read: never panics, never out of fuel, allocates at most `readK` -/
+
+/-- loop invariant (`a0` = meter at entry): as long as no valid header was seen nothing was
+    allocated; afterwards at most `readK`; a recorded map has as many areas as its header says -/
+def Inv (a0 : Nat) (acc : Acc) (m : Meter) : Prop :=
+  (acc.valid = 0 → m.alloc = a0) ∧ m.alloc ≤ a0 + readK ∧
+  (∀ fm s, acc.last = some (fm, s) → fm.areas.length = fm.hdr.nAreas ∧ fm.hdr.nAreas ≤ 65535)
+
+theorem nAreas_le (b : Bytes) : (decodeHeader b).nAreas ≤ 65535 := by
+  have := fieldLE2_lt b 54
+  simp only [decodeHeader, fieldLE] at *
+  omega
+
+theorem visitG_spec (B a0 : Nat) (data : Bytes) (acc : Acc) (p : Nat) (m : Meter) (hp : p ≤ data.length)
+    (hB : a0 + readK ≤ B) (hi : Inv a0 acc m) :
+    SafeP (visitG B data acc p) m (fun acc' m' => Inv a0 acc' m') := by
   unfold visitG
-  apply safe_bind _ _ _ (sliceFromG_safe _ _ _ _ hp)
-  intro tail m1 _
-  apply safe_bind _ _ _ (binaryReadG_safe _ _ _)
-  intro ⟨hb, rest⟩ m2 _
+  apply SafeP.bind; apply SafeP.sliceFrom hp
+  apply SafeP.bind; apply SafeP.binaryRead; intro _
   simp only
-  split
-  · exact safe_pure _ _
-  · apply safe_bind
-    · simp [allocG, Safe, modify, modifyGet, MonadStateOf.modifyGet, StateT.modifyGet, pure, Except.pure]
-    · intro _ m3 _
-      apply safe_bind _ _ _ (binaryReadG_safe _ _ _)
-      intro ⟨ab, _⟩ m4 _
-      exact safe_pure _ _
+  apply SafeP.cond
+  · intro _; exact SafeP.pure hi
+  · intro _
+    apply SafeP.ite
+    · intro _; exact SafeP.err
+    · intro hv
+      have hv0 : acc.valid = 0 := by omega
+      have hn := nAreas_le (List.take headerSize (List.drop p data))
+      have h2 : (decodeHeader (List.take headerSize (List.drop p data))).nAreas * areaMem ≤ 65535 * areaMem :=
+        Nat.mul_le_mul_right _ hn
+      have hm0 := hi.1 hv0
+      apply SafeP.bind; apply SafeP.alloc
+      · simp only [readK] at hB; omega
+      apply SafeP.bind; apply SafeP.binaryRead; intro _
+      apply SafeP.pure
+      refine ⟨fun h0 => by simp at h0, ?_, ?_⟩
+      · simp only [readK]; omega
+      · intro fm s h
+        injection h with h; injection h with h1 _; subst h1
+        exact ⟨by simp [decodeAreas_length], hn⟩
 
 /-- the visited position moves forward, so `|data| + 1 - start` iterations suffice -/
-theorem readLoopG_safe (data : Bytes) (fuel start : Nat) (acc : Acc) (m : Meter)
-    (hs0 : start ≤ data.length) (hf : data.length < start + fuel) :
-    Safe (readLoopG data fuel start acc m) := by
+theorem readLoopG_spec (B a0 : Nat) (data : Bytes) (fuel start : Nat) (acc : Acc) (m : Meter)
+    (hs0 : start ≤ data.length) (hf : data.length < start + fuel) (hB : a0 + readK ≤ B) (hi : Inv a0 acc m) :
+    SafeP (readLoopG B data fuel start acc) m (fun acc' m' => Inv a0 acc' m') := by
   induction fuel generalizing start acc m with
   | zero => omega
   | succ fuel ih =>
     unfold readLoopG
-    split
-    · exact safe_pure _ _
-    · rename_i hs
-      apply safe_bind _ _ _ (sliceFromG_safe _ _ _ _ (by omega))
-      intro tail m1 ht
-      cases hp : indexFrom data (data.length + 1) (data.length - tail.length) with
-      | none => exact safe_pure _ _
+    apply SafeP.ite
+    · intro _; exact SafeP.pure hi
+    · intro hs
+      apply SafeP.bind; apply SafeP.sliceFrom (by omega)
+      cases hp : indexFrom data (data.length + 1) (data.length - (List.drop start data).length) with
+      | none => exact SafeP.pure hi
       | some p =>
         simp only
         have hp' := indexFrom_some data _ _ p hp
-        have htl : tail.length = data.length - start := by
-          have hle : start ≤ data.length := by omega
-          have e : sliceFromG "Read: data[start:] (Index)" data start m = .ok (data.drop start, m) := by
-            simp [sliceFromG, hle, pure, StateT.pure, Except.pure]
-          rw [e] at ht
-          injection ht with ht; injection ht with h1 h2
-          subst h1; simp
-        apply safe_bind _ _ _ (visitG_safe data acc p m1 (by omega))
-        intro acc' m2 _
-        exact ih (p + 8) acc' m2 (by omega) (by omega)
+        have htl : (List.drop start data).length = data.length - start := by simp
+        apply SafeP.bind
+        apply SafeP.mono (visitG_spec B a0 data acc p m (by omega) hB hi)
+        intro acc' m' hi'
+        exact ih (p + 8) acc' m' (by omega) (by omega) hi'
 
-/-- **fmap.Read never panics and never loops without progress**, for every byte string. -/
-theorem readG_safe (data : Bytes) (m : Meter) : Safe (readG data m) := by
+/-- `Read`, every byte string: a map whose area table has the announced length, or an error;
+    never a panic, never out of fuel; cumulative allocation ≤ `readK`, inside any budget that
+    leaves room for it. -/
+theorem readG_spec (B : Nat) (data : Bytes) (m : Meter) (hB : m.alloc + readK ≤ B) :
+    SafeP (readG B data) m (fun r m' => r.1.areas.length = r.1.hdr.nAreas ∧ r.1.hdr.nAreas ≤ 65535 ∧
+      m'.alloc ≤ m.alloc + readK) := by
   unfold readG
-  apply safe_bind _ _ _ (readLoopG_safe data _ 0 _ m (by omega) (by omega))
-  intro acc m1 _
-  cases finish acc with
-  | ok r => exact safe_pure _ _
-  | error e => exact safe_err _
+  apply SafeP.bind
+  apply SafeP.mono (readLoopG_spec B m.alloc data _ 0 _ m (by omega) (by omega) hB
+    ⟨fun _ => rfl, by omega, by intro fm s h; simp at h⟩)
+  intro acc m' hi
+  cases hf : finish acc with
+  | error e => exact SafeP.err
+  | ok r =>
+    apply SafeP.pure
+    unfold finish at hf
+    split at hf
+    · cases hf
+    · split at hf
+      · rename_i r' _ hl
+        injection hf with hf; subst hf
+        have := hi.2.2 r'.1 r'.2 (by simpa using hl)
+        exact ⟨this.1, this.2, hi.2.1⟩
+      · cases hf
 
-/-- `ReadArea` does not panic on any map that `Read` returned (areas.length = nAreas), for every index. -/
-theorem readAreaG_safe (f : FMap) (img : Bytes) (i : Int) (m : Meter)
-    (hn : f.areas.length = f.hdr.nAreas) : Safe (readAreaG f img i m) := by
+/-! ### areas -/
+
+theorem readAreaG_spec (B : Nat) (f : FMap) (img : Bytes) (i : Int) (m : Meter)
+    (hn : f.areas.length = f.hdr.nAreas) (hB : m.alloc + img.length ≤ B) :
+    SafeP (readAreaG B f img i) m (fun _ _ => True) := by
   unfold readAreaG
-  split
-  · exact safe_err _
-  · rename_i h
-    have hi : i.toNat < f.areas.length := by
-      simp at h; omega
+  apply SafeP.ite
+  · intro _; exact SafeP.err
+  · intro h
+    have hi : i.toNat < f.areas.length := by simp at h; omega
     have : f.areas[i.toNat]? = some f.areas[i.toNat] := List.getElem?_eq_getElem hi
     rw [this]
     simp only
-    apply safe_bind
-    · simp [allocG, Safe, modify, modifyGet, MonadStateOf.modifyGet, StateT.modifyGet, pure, Except.pure]
-    · intro _ _ _; exact safe_pure _ _
+    apply SafeP.bind; apply SafeP.alloc
+    · have : (slice img (f.areas[i.toNat]).offset (f.areas[i.toNat]).size).length ≤ img.length := by
+        simp [slice]; omega
+      omega
+    apply SafeP.ite
+    · intro _; exact SafeP.err
+    · intro _; exact SafeP.pure trivial
+
+theorem writeAreaG_spec (f : FMap) (img : Bytes) (i : Int) (data : Bytes) (m : Meter)
+    (hn : f.areas.length = f.hdr.nAreas) :
+    SafeP (writeAreaG f img i data) m (fun img' _ => img'.length = img.length) := by
+  unfold writeAreaG
+  apply SafeP.ite
+  · intro _; exact SafeP.err
+  · intro h
+    have hi : i.toNat < f.areas.length := by simp at h; omega
+    have : f.areas[i.toNat]? = some f.areas[i.toNat] := List.getElem?_eq_getElem hi
+    rw [this]
+    simp only
+    apply SafeP.ite
+    · intro _; exact SafeP.err
+    · intro _
+      apply SafeP.ite
+      · intro _; exact SafeP.err
+      · intro h2
+        exact SafeP.pure (splice_length _ _ _ (by omega))
+
+theorem writeG_spec (B : Nat) (img : Bytes) (f : FMap) (start : Nat) (m : Meter)
+    (hB : m.alloc + headerSize + f.areas.length * areaSize ≤ B) :
+    SafeP (writeG B img f start) m (fun img' _ => img'.length = img.length) := by
+  unfold writeG
+  apply SafeP.bind; apply SafeP.alloc (by omega)
+  apply SafeP.bind; apply SafeP.alloc (by simp only []; omega)
+  simp only
+  apply SafeP.ite
+  · intro _; exact SafeP.err
+  · intro h2
+    exact SafeP.pure (splice_length _ _ _ (by omega))
+
+/-! ### the pipelines the harness drives: `Read` the hostile image, then use the map on it -/
+
+def readThenAreaG (B : Nat) (img : Bytes) (i : Int) : GoM Bytes := do
+  let (f, _) ← readG B img
+  readAreaG B f img i
+
+def readThenWriteAreaG (B : Nat) (img : Bytes) (i : Int) (data : Bytes) : GoM Bytes := do
+  let (f, _) ← readG B img
+  writeAreaG f img i data
+
+def readThenWriteG (B : Nat) (img : Bytes) (start : Nat) : GoM Bytes := do
+  let (f, _) ← readG B img
+  writeG B img f start
+
+theorem readThenAreaG_spec (B : Nat) (img : Bytes) (i : Int) (m : Meter)
+    (hB : m.alloc + readK + img.length ≤ B) : SafeP (readThenAreaG B img i) m (fun _ _ => True) := by
+  unfold readThenAreaG
+  apply SafeP.bind
+  apply SafeP.mono (readG_spec B img m (by omega))
+  intro r m' ⟨h1, _, h3⟩
+  exact readAreaG_spec B r.1 img i m' h1 (by omega)
+
+theorem readThenWriteAreaG_spec (B : Nat) (img : Bytes) (i : Int) (data : Bytes) (m : Meter)
+    (hB : m.alloc + readK ≤ B) :
+    SafeP (readThenWriteAreaG B img i data) m (fun img' _ => img'.length = img.length) := by
+  unfold readThenWriteAreaG
+  apply SafeP.bind
+  apply SafeP.mono (readG_spec B img m hB)
+  intro r m' ⟨h1, _, _⟩
+  exact writeAreaG_spec r.1 img i data m' h1
+
+theorem readThenWriteG_spec (B : Nat) (img : Bytes) (start : Nat) (m : Meter)
+    (hB : m.alloc + readK + headerSize + 65535 * areaSize ≤ B) :
+    SafeP (readThenWriteG B img start) m (fun img' _ => img'.length = img.length) := by
+  unfold readThenWriteG
+  apply SafeP.bind
+  apply SafeP.mono (readG_spec B img m (by omega))
+  intro r m' ⟨h1, h2, h3⟩
+  apply writeG_spec
+  have : r.1.areas.length * areaSize ≤ 65535 * areaSize := Nat.mul_le_mul_right _ (by omega)
+  omega
 
 end Fiano.Fmap
